@@ -438,6 +438,20 @@ Section Monitors.
              && (if is_auth_redirect r then covers r CMain && covers r CAcc && covers r CRef else true)
         else true).
 
+  (* C17, sessions older than the 24-hour limit: a main cookie that opens under the key but whose session began more
+     than 24 h before the request is unusable like any other -- on a gated path the answer is the login redirect
+     (401 for a JSON client), never the application *)
+  Definition overage (now : time) (rq : request) : bool :=
+    match jar_get CMain (q_jar rq) with
+    | Some c => match decode (c_key cfg) CMain c with Some p => session_too_old now p | None => false end
+    | None => false
+    end.
+
+  Definition c17_age_step (now : time) (rq : request) (r : response) : bool :=
+    if gated rq && overage now rq
+    then negb (forwarded r) && (is_auth_redirect r || (q_json rq && N.eqb (r_status r) 401))
+    else true.
+
   (* C04, completion: a response that completes a login (callback answered by the
      redirect to a local path after a successful code exchange) or a refresh (the
      request is forwarded after a successful refresh) stores, in that very
@@ -521,6 +535,7 @@ Definition st_c16 (E : env) (cfg : config) (a e : istr) (s : wstep) := c16_step 
 Definition st_c18 (E : env) (cfg : config) (a e : istr) (s : wstep) := c18_step (w_obs s).
 Definition st_c09 (E : env) (cfg : config) (a e : istr) (s : wstep) := c09_step (w_obs s).
 Definition st_c17 E cfg a (e : istr) (s : wstep) := c17_step E cfg a (w_now s) (w_rq s) (w_ans s) (w_obs s).
+Definition st_c17age E cfg (a e : istr) (s : wstep) := c17_age_step E cfg a (w_now s) (w_rq s) (w_obs s).
 
 (* ------------------------------------------------------------------ history monitors *)
 
@@ -732,5 +747,5 @@ Definition violates_c10 (c : wcase) : bool := negb (steps_all c st_c10).
 Definition violates_c11 (c : wcase) : bool := negb (c11_history c).
 Definition violates_c15 (c : wcase) : bool := negb (steps_all c st_c15).
 Definition violates_c16 (c : wcase) : bool := negb (steps_all c st_c16).
-Definition violates_c17 (c : wcase) : bool := negb (steps_all c st_c17 && c17_history c && steps_all c st_c03i).
+Definition violates_c17 (c : wcase) : bool := negb (steps_all c st_c17 && c17_history c && steps_all c st_c03i && steps_all c st_c17age).
 Definition violates_c18 (c : wcase) : bool := negb (steps_all c st_c18).
